@@ -116,7 +116,7 @@ def inject_structure(rng, mtx, objs, p_dup=0.3, p_dom=0.4):
 
 
 def dm_case(rng, nmax=7, mmax=5, nmin=1, mmin=1, modes=VALUE_MODES, positive=False,
-            wmode=None, omode=None, structure=True, big=0.15):
+            wmode=None, omode=None, structure=True, big=0.15, int_dtypes=0.0):
     n, m = shape(rng, nmax, mmax, nmin, mmin, big=big)
     mode = rng.choice(list(modes))
     mtx = values(rng, n, m, mode, positive=positive)
@@ -124,7 +124,7 @@ def dm_case(rng, nmax=7, mmax=5, nmin=1, mmin=1, modes=VALUE_MODES, positive=Fal
     tags = inject_structure(rng, mtx, objs) if structure else []
     if positive:
         mtx = [[abs(x) if x != 0 else 1.0 for x in r] for r in mtx]
-    return {
+    c = {
         "matrix": mtx,
         "objectives": objs,
         "weights": weights(rng, m, wmode),
@@ -133,6 +133,12 @@ def dm_case(rng, nmax=7, mmax=5, nmin=1, mmin=1, modes=VALUE_MODES, positive=Fal
         "mode": mode,
         "tags": tags,
     }
+    if int_dtypes and rng.random() < int_dtypes and all(float(x).is_integer() for r in mtx for x in r):
+        # integer-typed criteria (all of them, or mixed with float ones) holding the same values
+        allint = rng.random() < 0.5
+        c["dtypes"] = ["int64" if allint or rng.random() < 0.6 else "float64" for _ in range(m)]
+        c["tags"] = list(tags) + ["int_dtypes"]
+    return c
 
 
 def all_small_matrices(nmax, mmax, alphabet=(0, 1, 2)):
